@@ -56,7 +56,8 @@ def run(ctx):
     required = ["strict_refuses", "strict_refuses_with_reason", "strict_decision_table", "strict_running", "lenient_accepts", "moved_keys_refused",
                 "cli_secrets_refused", "outbound_https_only", "lenient_follows_http", "tls_off_network_disabled", "refusals_independent",
                 "fact_default_strict", "fact_parse_public_url", "fact_reserved_lists", "fact_moved_keys", "fact_secret_flag_rule",
-                "fact_engine_conditions", "fact_http_client", "fact_iam_strictmode", "fact_iam_method_inventory", "iam_calls_strict", "fact_client_strict_unconditional", "fact_outbound_inventory", "fact_iam_call_sites", "fact_misc_sites", "fact_filter_and_validator_comparisons", "remote_contexts_exact", "remote_context_prefix_witness", "dummy_any_spelling", "fact_redirect_check_reads_global", "early_client_strict", "iam_endpoints_strict", "iam_endpoint_witness", "fact_engine_order", "fact_secret_flags", "fact_flags_resolved", "fact_redacted_keys"]
+                "fact_engine_conditions", "fact_http_client", "fact_iam_strictmode", "fact_iam_method_inventory", "iam_calls_strict", "fact_client_strict_unconditional", "fact_outbound_inventory", "fact_iam_call_sites", "fact_misc_sites", "fact_filter_and_validator_comparisons", "remote_contexts_exact", "remote_context_prefix_witness", "dummy_any_spelling", "fact_redirect_check_reads_global", "early_client_strict", "iam_endpoints_strict", "iam_endpoint_witness", "fact_engine_order", "fact_secret_flags", "fact_flags_resolved", "fact_redacted_keys",
+                "fact_response_cap", "response_cap_exact", "response_never_truncated", "reader_limit_witness", "do_bytes_refines", "do_body_bounded", "outbound_https_only_bytes"]
     for r in required:
         if not any(t.endswith("Props." + r) for t in thms):
             ctx.oblige("thm-present:" + r, False, "theorem missing or its module does not build")
@@ -254,6 +255,27 @@ def run(ctx):
                 violation("outbound-non-https:" + op.get("ctor", "") + (":built-before-strict" if op.get("late") else ""), f"strict {op.get('ctor')} client made requests {reqs}", opl)
             if not strict and m.group(2).startswith("refuse:") and "too-many" not in m.group(2):
                 violation("lenient-refused:outbound", f"lenient {op.get('ctor')} client refused: {line}", opl)
+        elif kind == "cap":
+            # the documented 1 MiB response cap, judged on what the caller of the REAL Do got to read
+            n, cap = op.get("body", 0), 1024 * 1024
+            m = re.fullmatch(r"cap reqs=(\d+) out=(\S+)(?: len=(\d+) same=(\w+))?", line)
+            if not m:
+                continue
+            res = m.group(2)
+            cls = "over" if n > cap else ("at" if n == cap else "under")
+            outcomes[f"cap {'strict' if strict else 'lenient'} {cls} {'chunked' if op.get('chunked') else 'content-length'} {res.split(':')[0]}"] += 1
+            distinct.add(("cap", n, op.get("chunked", False), strict, op.get("ctor"), len(op.get("locs") or [])))
+            feats_default.append(n)
+            if res.startswith("ok"):
+                if n > cap:
+                    violation("response-above-cap-accepted:" + op.get("ctor", ""), f"{op.get('ctor')} client handed out a response of {n} bytes (cap {cap}): {line}", opl)
+                elif int(m.group(3)) != n or m.group(4) != "true":
+                    violation("response-truncated-silently:" + op.get("ctor", ""), f"server sent {n} bytes, caller of Do read {m.group(3)} (identical={m.group(4)}) without an error", opl)
+            elif res == "refuse:too-large":
+                if n <= cap:
+                    violation("response-within-cap-refused:" + op.get("ctor", ""), f"response of {n} bytes (cap {cap}) refused as too large", opl)
+            elif not (strict and (op.get("first", "").startswith("http://") or any(l.startswith("http://") for l in op.get("locs") or []))):
+                violation("response-cap-other:" + res[:30], f"unexpected outcome for a {n}-byte response: {line}", opl)
     for sig, (_, what, opline) in sorted(best.items()):
         ctx.violation("C20:" + sig, what, sig.replace(":", "-") + ".jsonl", opline)
     ctx.oblige("oracle:strict-refuses/lenient-accepts/moved-keys/cli-secrets/outbound(impl)", viol == 0, f"{viol} violating cases, signatures: {sorted(best)}")
@@ -264,6 +286,9 @@ def run(ctx):
         ctx.oblige("facts:registered-flags=serverConfigFlags()", sorted(ff) == sorted(set(flag_names)),
                    f"only in facts: {sorted(set(ff) - set(flag_names))[:6]}; only in the binary: {sorted(set(flag_names) - set(ff))[:6]}")
         ctx.oblige("iam-matrix-run", feats_default[1] >= 12 * 9, f"{feats_default[1]} (method, endpoint) calls of the IAM client")
+        capn = feats_default[2:]
+        ctx.oblige("response-cap-rows-run", any(n == 1024 * 1024 for n in capn) and any(n == 1024 * 1024 + 1 for n in capn) and len(capn) >= 30,
+                   f"{len(capn)} response-cap cases (sizes incl. exactly 1 MiB and 1 MiB + 1)")
         ctx.oblige("default-strict-rows-run", feats_default[0] >= 8, f"{feats_default[0]} configurations without a strictmode key")
         ctx.oblige("exhaustive:option-product", len(product_rows) == PRODUCT_SIZE, f"{len(product_rows)} of {PRODUCT_SIZE} rows of the option product were run")
 
